@@ -74,6 +74,21 @@ pub fn run_col(t: &str, b: usize) -> Outcome {
     }
 }
 
+/// lrlex's line_col on a span: the positions of both ends, as the newline cache gives them
+pub fn run_wrap(t: &str, s: usize, e: usize) -> Outcome {
+    use lrlex::{DefaultLexerTypes, LRNonStreamingLexer};
+    use lrpar::NonStreamingLexer;
+    let nlc = NewlineCache::from_str(t).unwrap();
+    let lexer: LRNonStreamingLexer<DefaultLexerTypes<u32>> = LRNonStreamingLexer::new(t, vec![], NewlineCache::from_str(t).unwrap());
+    let exp = (nlc.byte_to_line_num_and_col_num(t, s), nlc.byte_to_line_num_and_col_num(t, e));
+    let r = catch_unwind(AssertUnwindSafe(|| lexer.line_col(Span::new(s, e))));
+    let expected = format!("{:?}", exp);
+    match r {
+        Err(_) => Outcome { fails: true, observed: "panic".into(), expected },
+        Ok(o) => Outcome { fails: (Some(o.0), Some(o.1)) != exp, observed: format!("{:?}", o), expected },
+    }
+}
+
 fn texts(maxlen: usize) -> Vec<String> {
     let alpha = ['a', '\n', '\r', 'é'];
     let mut out = vec![String::new()];
@@ -97,6 +112,16 @@ pub fn search(tag: &str, tier: &str) -> Option<Value> {
     let maxlen = if tier == "thorough" { 7 } else { 6 };
     let span_q = tag.contains("span") || tag.contains("st_line") || tag.contains("bsearch") || tag.contains("newlines[");
     let col_q = tag.contains(".col.") || tag.contains("slice_start");
+    if tag.contains(".wrap.") {
+        for t in texts(maxlen.min(5)) {
+            for s in 0..=t.len() { for e in s..=t.len() {
+                if !t.is_char_boundary(s) || !t.is_char_boundary(e) { continue; }
+                let o = run_wrap(&t, s, e);
+                if o.fails { return Some(witness("c19_wrap", json!({"text": t, "start": s, "end": e}), &o)); }
+            } }
+        }
+        return None;
+    }
     for t in texts(maxlen) {
         if col_q {
             for b in 0..=t.len() + 1 {
